@@ -9,8 +9,12 @@ mkdir -p "$BIN" "$V/evidence" "$V/replays" "$V/.cache/tmp"
 build() {
   (cd $V/mc && cp -f /repo/go.sum go.sum 2>/dev/null; go build -o "$BIN/vcheck" ./cmd/vcheck) || { echo "BUILD-FAILED: vcheck does not build against /repo" >&2; exit 3; }
 }
+build_cli() {
+  (cd /repo && go build -o "$BIN/platypus" ./cmd/platypus) || { echo "BUILD-FAILED: the platypus CLI does not build" >&2; exit 3; }
+}
 case "${1:-}" in
-  build) build ;;
+  build) build; build_cli ;;
+  C20) build; build_cli; exec "$BIN/vcheck" run "$1" "${2:-quick}" ;;
   replay) build; exec "$BIN/vcheck" replay "$2" ;;
   *) build; exec "$BIN/vcheck" run "$1" "${2:-quick}" ;;
 esac
